@@ -61,7 +61,7 @@ def main(ctx):
     ctx.cov["valid_texts"] = nvalid
     cases = os.path.join(ctx.scratch, "cases.ndjson")
     with open(gen, "rb") as fi, open(cases, "wb") as fo:
-        ctx.run([pb, "mutate", "-bases", str(70 if ctx.quick else 900), "-alpha", "small" if ctx.quick else "full"], stdin=fi, stdout=fo)
+        ctx.run([pb, "mutate", "-bases", str(70 if ctx.quick else 600), "-alpha", "small" if ctx.quick else "full"], stdin=fi, stdout=fo)
     ncases = sum(1 for _ in open(cases, "rb"))
     ctx.cov["cases"] = ncases
     if ncases < nvalid or nvalid < 5000:
